@@ -57,6 +57,16 @@ def execute(spec, policy, seed, step_budget=60000):
 
     def scenario(run):
         c = run.make_connection(allowed_versions={VERSION})
+        if spec.get('hangup_on'):
+            # "hang up as soon as my last words have been sent": an ordinary outgoing listener that calls disconnect() (not
+            # immediate) from inside the write of one particular packet - whichever thread performs that write
+            hung = []
+
+            def hang_up(pkt):
+                if getattr(pkt, '_vtag', None) == spec['hangup_on'] and not hung:
+                    hung.append(1)
+                    api(run, c, 'disc')
+            c.register_packet_listener(hang_up, serverbound.play.PluginMessagePacket, outgoing=True)
         api(run, c, 'connect')
         if not spec.get('early'):
             run.settle()                # otherwise the writers race with the login itself
@@ -250,7 +260,10 @@ def random_spec(rng, nusers):
     enc = rng.random() < 0.4
     # writers racing with the login itself: only without compression (a write that races with the server's
     # set-compression announcement is ambiguous in the protocol itself, not in the client)
-    return {'users': users, 'thr': thr, 'enc': enc, 'early': enc and thr is None and rng.random() < 0.7}
+    spec = {'users': users, 'thr': thr, 'enc': enc, 'early': enc and thr is None and rng.random() < 0.7}
+    if disc_user < 0 and not spec['early'] and rng.random() < 0.6:
+        spec['hangup_on'] = rng.randint(1, pid)         # nobody disconnects explicitly: a listener hangs up after one of the packets
+    return spec
 
 
 def run(chk):
@@ -279,6 +292,7 @@ def run(chk):
         {'users': {'u2': [('q', 1, 80), ('f', 2, 3)], 'u3': [('f', 3, 70), ('q', 4, 2), ('disc',)]}, 'thr': 64, 'enc': True},
         {'users': {'u2': [('f', 1, 20), ('q', 2, 5)]}, 'thr': None, 'enc': True, 'early': True},
         {'users': {'u2': [('nf', 1, 20), ('q', 2, 5)], 'u3': [('nq', 3, 70), ('disc',)]}, 'thr': 64, 'enc': False},
+        {'users': {'u2': [('q', 1, 5), ('q', 2, 9), ('q', 3, 4)], 'u3': [('f', 4, 7)]}, 'thr': None, 'enc': False, 'hangup_on': 2},
     ]
     bound = 2
     cap = 400 if quick else 6000
